@@ -1,6 +1,7 @@
 // C04 harness: gstuff encode/decode round trip (configurable codec with both
 // alphabets + legacy C codec) against the Lean model IgrisModel/C04.
 #include "gstuff/common.h"
+#include "gstuff/sess.h"
 
 static void check_frame(const std::string &codec, const bytes &p, const bytes &f, out &o)
 {
@@ -31,6 +32,10 @@ static void run_op(const std::vector<std::string> &w, const std::string &, out &
 {
     const std::string &op = w[0];
     if (op == "reset") { o.result = "ok"; return; }
+    if (op == "seq") return run_seq(w, o);
+    if (op == "sizes") return run_sizes(o);
+    if (op == "premain") { run_premain(o); return; }
+    if (op == "long") return run_long(w, o);
     if (op == "ctx")
     {
         alphabet a = alpha_of(gstuff_context()), b = alpha_of(gstuff_context_v0());
@@ -92,13 +97,19 @@ static void run_op(const std::vector<std::string> &w, const std::string &, out &
         }
         std::vector<uint8_t> f = gstuffing_v(vec.data(), vec.size(), ctx);
         size_t n = total_len(pieces);
-        o.result = std::to_string(f.capacity());
+        // Canonical observable (round 3, correction): the property fixes only that the buffer is large enough
+        // for every frame of that payload length (2n+4); a growth policy that allocates MORE (reserve with
+        // slack, a twin that rounds up) is not a violation, so the value compared with the model is
+        // min(capacity, 2n+4) - the model's vecBufSize - and each twin is judged on its own.
+        size_t cap = f.capacity();
         if (f.capacity() < 2 * n + 4) o.fail("self-sized buffer smaller than the worst-case frame 2n+4");
         if (pieces.size() == 1)
         {
             std::vector<uint8_t> g = gstuffing(igris::buffer((char *)bufs[0]->p, pieces[0].size()), ctx);
-            if (g.capacity() != f.capacity()) o.fail("gstuffing(buffer) sizes its buffer differently from gstuffing_v(vec)");
+            if (g.capacity() < 2 * n + 4) o.fail("gstuffing(buffer): self-sized buffer smaller than the worst-case frame 2n+4");
+            cap = std::min(cap, g.capacity());
         }
+        o.result = std::to_string(std::min(cap, 2 * n + 4));
         for (auto b : bufs) delete b;
         o.tag("self-sized");
         return;
@@ -169,10 +180,122 @@ static bytes rnd_payload(rng &r, const alphabet &a, size_t n)
     return p;
 }
 
+// a well-formed custom alphabet (Ctx.WF of the model): escape byte and escape codes differ from the markers,
+// the code of the escape byte differs from the other two codes, the codes of start and stop differ when the
+// markers do.  start == stop alphabets are generated too.
+static alphabet rnd_alphabet(rng &r)
+{
+    while (true)
+    {
+        alphabet a;
+        a.start = (uint8_t)r.next();
+        a.stop = r.chance(35) ? a.start : (uint8_t)r.next();
+        a.stub = (uint8_t)r.next();
+        a.s_start = (uint8_t)r.next();
+        a.s_stop = (a.start == a.stop && r.chance(50)) ? a.s_start : (uint8_t)r.next();
+        a.s_stub = (uint8_t)r.next();
+        bool ok = a.stub != a.start && a.stub != a.stop && a.s_start != a.start && a.s_start != a.stop &&
+                  a.s_stop != a.start && a.s_stop != a.stop && a.s_stub != a.start && a.s_stub != a.stop &&
+                  a.s_stub != a.s_start && a.s_stub != a.s_stop && (a.start == a.stop || a.s_stop != a.s_start);
+        if (ok) return a;
+    }
+}
+
+// payload over the markers of EVERY alphabet of the session (a byte that is a marker in one alphabet must go
+// out as it is under another one), plus 00 41
+static bytes sess_payload(rng &r, const std::vector<alphabet> &as, size_t n)
+{
+    bytes pool = {0x00, 0x41};
+    for (auto &a : as) { const uint8_t *q = (const uint8_t *)&a; pool.insert(pool.end(), q, q + 6); }
+    bytes p(n);
+    for (auto &x : p) x = r.chance(85) ? pool[r.below(pool.size())] : (uint8_t)r.next();
+    return p;
+}
+static std::string pieces_tok(rng &r, const bytes &p)
+{
+    int k = (int)r.range(1, 3);
+    std::vector<size_t> cuts;
+    for (int i = 0; i < k - 1; i++) cuts.push_back(r.below(p.size() + 1));
+    std::sort(cuts.begin(), cuts.end());
+    cuts.push_back(p.size());
+    std::string s;
+    size_t prev = 0;
+    for (size_t i = 0; i < cuts.size(); i++)
+    {
+        s += (i ? "/" : "") + hex(bytes(p.begin() + prev, p.begin() + cuts[i]));
+        prev = cuts[i];
+    }
+    return s;
+}
+
+// SESSIONS (seeded change C04-escape-table-cached-by-ctx-address): the encoder is called again and again with
+// the SAME gstuff_context object whose contents changed in between (v1 -> v0 -> custom -> back ...), into the
+// same output buffer; each frame is decoded by the one receiver object re-constructed from the context as it
+// is at that moment
+static void gen_sessions(rng &r, bool th)
+{
+    alphabet v1 = alpha_of(gstuff_context()), v0 = alpha_of(gstuff_context_v0());
+    for (int rep = 0; rep < (th ? 1500 : 160); rep++)
+    {
+        std::vector<alphabet> as;
+        int na = (int)r.range(2, 6);
+        if (rep % 4 == 0) as = {v1, v0, rnd_alphabet(r), v1, v0};            // the order of the task
+        else if (rep % 4 == 1) as = {v0, v1, v0, v1};
+        else
+            for (int i = 0; i < na; i++) as.push_back(r.chance(30) ? v1 : r.chance(40) ? v0 : rnd_alphabet(r));
+        size_t maxn = rep % 7 == 0 ? 120 : 12;
+        size_t outcap = 2 * maxn + 4, blkcap = maxn + 8;
+        std::string line = "seq " + std::to_string(outcap) + " " + std::to_string(blkcap);
+        bool first = true;
+        for (auto &a : as)
+        {
+            // the first alphabet of a session may be the default-constructed one: no mutation at all
+            if (!(first && same_alpha(a, v1) && r.chance(70))) line += " A" + alpha_hex(a);
+            first = false;
+            int ne = (int)r.range(1, 2);
+            for (int e = 0; e < ne; e++)
+            {
+                bytes p = sess_payload(r, as, r.below(maxn + 1));
+                int kind = (int)r.below(10);
+                line += (kind < 7 ? " E" : " V") + pieces_tok(r, p);
+                if (r.chance(75))
+                {
+                    size_t cap = p.size() + 2 + r.below(4);
+                    if (r.chance(8) && p.size() > 0) cap = 1 + r.below(p.size() + 1);
+                    line += r.chance(70) ? " N" : "";
+                    line += (r.chance(50) ? " I" : " S") + std::to_string(std::min(cap, blkcap)) + " F";
+                    if (r.chance(25)) line += " F";          // the same frame once more, no init in between
+                    if (r.chance(10)) line += " R F";
+                }
+            }
+            if (r.chance(15))
+            {
+                bytes p = sess_payload(r, as, r.below(maxn + 1));
+                line += " G" + hex(p) + " ls" + std::to_string(std::min(p.size() + 2 + r.below(3), blkcap)) + " lf";
+                if (r.chance(30)) line += " lf";
+            }
+        }
+        puts(line.c_str());
+    }
+}
+
 static void gen(rng &r, const std::string &tier)
 {
     bool th = tier == "thorough";
     puts("ctx");
+    puts("sizes");
+    puts("premain");
+    gen_sessions(r, th);
+    // >= 300 KiB payloads, once per codec: all markers, all escape bytes, mixed
+    {
+        const char *cs[3] = {"v1", "v0", "leg"}, *ks[3] = {"mark", "esc", "mix"};
+        for (auto c : cs)
+            for (auto k : ks)
+                printf("long %s %s %d %d\n", c, k, ((th || k != ks[2]) ? 307200 : 100000) + (int)r.below(64), (int)r.below(1000000));
+        for (auto c : cs)
+            for (int n : {0, 1, 2, 255, 256, 257, 65535, 65536, 65537})
+                printf("long %s %s %d %d\n", c, ks[n % 3], n, (int)r.below(1000000));
+    }
     for (int ci = 0; ci < 3; ci++)
     {
         const char *codec = CODECS[ci];
